@@ -12,9 +12,12 @@
   hypothesis appears exactly where a division is cancelled.
 
   Status: every clause is proved at full strength EXCEPT `conditional`, where the code deviates from the specification
-  (finding F11, open): `conditional_den` states what the code computes, `conditional_den_spec_partial` the specification
-  under the hypothesis that excludes the deviation, `conditional_den_probability` the full specification for the
-  `Probability` overload, `conditional_collects_bound_range` / `_subscript` exhibit the deviation.
+  (finding F11; the subscript part is repaired by `fix:` a54a0f5, the bound-range part is open because a test pins it):
+  `conditional_den` states what the code computes, `conditional_den_spec_partial` the specification under the hypothesis
+  that the collected variables are the free ones, `conditional_complement_exact_iff` characterises that hypothesis (every
+  name bound by an inner Sum is in `ranges` or free elsewhere), `conditional_den_spec_observational` is the specification on
+  exactly those inputs, `conditional_den_spec_sumfree` / `conditional_den_probability` the Sum-free and leaf corollaries,
+  `conditional_collects_bound_range` exhibits the remaining deviation, `conditional_skips_subscripts` the repaired one.
 -/
 import Y0.Lemmas.SemFrac
 
@@ -60,10 +63,11 @@ theorem normalize_marginalize_den (e c : Expr) (r : List Var) (h : e.normalizeMa
       sumVars env.card ((upgradeOrdering (r.map Var.base)).map (·.name)) (fun τ => den env σ' e τ) σ :=
   Y0.normalize_marginalize_den e c r h σ
 
-/-! ## conditional (finding F11) -/
+/-! ## conditional (finding F11: the subscript part is repaired by `fix:` a54a0f5, the bound-range part is open) -/
 
 /-- what `e.conditional(ranges)` denotes, for the code as it is: `e / Σ_{collected ∖ ranges} e`, where `collected` is every
-variable `_iter_variables` yields (`Probability.conditional`: every non-`Intervention` variable of the leaf) -/
+non-`Intervention` variable `_iter_variables` yields (event variables and `Sum` ranges; subscripts are skipped by both
+overloads) -/
 theorem conditional_den (e c : Expr) (r : List Var) (h : e.conditional r = .ok c) (σ : Val) :
     den env σ' c σ = den env σ' e σ /
       sumVars env.card ((upgradeOrdering ((e.conditionalComplement r).map Var.base)).map (·.name))
@@ -83,13 +87,42 @@ def freeEventNamesList : List Expr → List Name
   | e :: es => freeEventNames e ++ freeEventNamesList es
 end
 
--- OPEN: conditional_den_spec (full strength, FALSE for the current code: finding F11, known_findings.jsonl)
+mutual
+/-- names in the range of some `Sum` occurring inside the expression -/
+def boundRangeNames : Expr → List Name
+  | .prod fs => boundRangeNamesList fs
+  | .sum e r => boundRangeNames e ++ r.map (·.name)
+  | .frac n d => boundRangeNames n ++ boundRangeNames d
+  | _ => []
+def boundRangeNamesList : List Expr → List Name
+  | [] => []
+  | e :: es => boundRangeNames e ++ boundRangeNamesList es
+end
+
+mutual
+/-- no `Intervention` OBJECT (`-X`, `+X`) in event position or as a `Sum` range; intervention SUBSCRIPTS are allowed anywhere.
+(`P(-x)` is a different thing from `P[x](…)`; `Sum` ranges are plain variables in every well-formed expression.) -/
+def noIvObject : Expr → Bool
+  | .prob _ c p => (c ++ p).all (fun v => !v.isIv)
+  | .prod fs => noIvObjectList fs
+  | .sum e r => noIvObject e && r.all (fun v => !v.isIv)
+  | .frac n d => noIvObject n && noIvObject d
+  | .q d c => (c ++ d).all (fun v => !v.isIv)
+  | .one => true
+  | .zero => true
+def noIvObjectList : List Expr → Bool
+  | [] => true
+  | e :: es => noIvObject e && noIvObjectList es
+end
+
+-- OPEN: conditional_den_spec (full strength, FALSE for the current code: what remains of finding F11, known_findings.jsonl)
 --   theorem conditional_den_spec (e c : Expr) (r : List Var) (h : e.conditional r = .ok c) (σ : Val)
 --       (xs : List Name) (hxs : xs.Nodup) (hmem : ∀ x, x ∈ xs ↔ x ∈ freeEventNames e ∧ x ∉ r.map (·.name)) :
 --       den env σ' c σ = den env σ' e σ / sumVars env.card xs (fun τ => den env σ' e τ) σ
+--   It fails exactly when some name in the range of an inner `Sum` is neither in `ranges` nor free elsewhere in the
+--   expression (`conditional_complement_exact_iff`): that name is then summed over a second time.
 /-- the specification of `conditional` (`e / Σ_{free(e) ∖ ranges} e`) holds whenever the variables the code collects are
-exactly the free event variables outside `ranges`, i.e. when `e` has no bound Sum range and no intervention subscript
-among the collected names -/
+exactly the free event variables outside `ranges` -/
 theorem conditional_den_spec_partial (e c : Expr) (r : List Var) (h : e.conditional r = .ok c) (σ : Val)
     (xs : List Name) (hxs : xs.Nodup) (hmem : ∀ x, x ∈ xs ↔ x ∈ freeEventNames e ∧ x ∉ r.map (·.name))
     (hsame : ∀ x, x ∈ (e.conditionalComplement r).map (·.name) ↔ x ∈ freeEventNames e ∧ x ∉ r.map (·.name)) :
@@ -104,97 +137,70 @@ theorem conditional_den_spec_partial (e c : Expr) (r : List Var) (h : e.conditio
     rw [hm, hsame, hmem]
   exact congrFun (sumVars_perm env.card hperm _) σ
 
-/-- **`Probability.conditional` meets the specification**: for a leaf `P(C | Pa)` whose event variables are not
-`Intervention` objects, `p.conditional(ranges)` denotes `p / Σ_{(C ∪ Pa) ∖ ranges} p` (subscripts are not summed over) -/
-theorem conditional_den_probability {pop : Option Var} {ch pa : List Var} {c : Expr} (r : List Var)
-    (hiv : ∀ v ∈ ch ++ pa, v.isIv = false) (h : (Expr.prob pop ch pa).conditional r = .ok c) (σ : Val)
-    (xs : List Name) (hxs : xs.Nodup)
-    (hmem : ∀ x, x ∈ xs ↔ x ∈ (ch ++ pa).map (·.name) ∧ x ∉ r.map (·.name)) :
-    den env σ' c σ = den env σ' (.prob pop ch pa) σ / sumVars env.card xs (fun τ => den env σ' (.prob pop ch pa) τ) σ := by
-  apply conditional_den_spec_partial _ c r h σ xs hxs (by simpa [freeEventNames] using hmem)
-  intro x
-  simp only [freeEventNames, Expr.conditionalComplement, Expr.iterVars, List.mem_map, mem_diff', mem_dedup',
-    mem_upgradeOrdering, List.mem_filter, List.mem_flatMap, Var.iterVars, List.mem_cons, Bool.not_eq_true']
+/-- names of the non-`Intervention` variables of a list of event variables with their subscripts: the subscripts drop out -/
+theorem names_filter_iterVars (vs : List Var) (hiv : vs.all (fun v => !v.isIv) = true) (x : Name) :
+    x ∈ ((vs.flatMap Var.iterVars).filter (fun (v : Var) => !v.isIv)).map (·.name) ↔ x ∈ vs.map (·.name) := by
+  simp only [List.all_eq_true, Bool.not_eq_true'] at hiv
+  simp only [List.mem_map, List.mem_filter, List.mem_flatMap, Var.iterVars, List.mem_cons, Bool.not_eq_true']
   constructor
-  · rintro ⟨w, ⟨⟨v, ⟨⟨u, hu, hvu⟩, hviv⟩, rfl⟩, hnr⟩, rfl⟩
-    rcases hvu with rfl | ⟨i, _, rfl⟩
-    · refine ⟨⟨v, hu, rfl⟩, ?_⟩
-      rintro ⟨r0, hr0, hn⟩
-      exact hnr ⟨r0, hr0, Var.base_eq_iff.mpr hn⟩
-    · simp [Iv.toVar] at hviv
-  · rintro ⟨⟨u, hu, rfl⟩, hnr⟩
-    refine ⟨u.base, ⟨⟨u, ⟨⟨u, hu, Or.inl rfl⟩, hiv u hu⟩, rfl⟩, ?_⟩, rfl⟩
-    rintro ⟨r0, hr0, hb⟩
-    exact hnr ⟨r0, hr0, Var.base_eq_iff.mp hb⟩
+  · rintro ⟨w, ⟨⟨v, hv, hw⟩, hwiv⟩, rfl⟩
+    rcases hw with rfl | ⟨i, _, rfl⟩
+    · exact ⟨w, hv, rfl⟩
+    · simp [Iv.toVar] at hwiv
+  · rintro ⟨v, hv, rfl⟩
+    exact ⟨v, ⟨⟨v, hv, Or.inl rfl⟩, hiv v hv⟩, rfl⟩
+
+theorem names_filter_plain (vs : List Var) (hiv : vs.all (fun v => !v.isIv) = true) (x : Name) :
+    x ∈ (vs.filter (fun (v : Var) => !v.isIv)).map (·.name) ↔ x ∈ vs.map (·.name) := by
+  rw [List.filter_eq_self.mpr (by simpa [List.all_eq_true] using hiv)]
 
 mutual
-/-- no `Sum` inside and no intervention subscript on any event variable: products / fractions of observational leaves -/
-def sumAndSubscriptFree : Expr → Bool
-  | .prob _ c p => (c ++ p).all (fun v => v.ivs.isEmpty)
-  | .prod fs => sumAndSubscriptFreeList fs
-  | .sum _ _ => false
-  | .frac n d => sumAndSubscriptFree n && sumAndSubscriptFree d
-  | .q _ _ => true
-  | .one => true
-  | .zero => true
-def sumAndSubscriptFreeList : List Expr → Bool
-  | [] => true
-  | e :: es => sumAndSubscriptFree e && sumAndSubscriptFreeList es
-end
-
-mutual
-theorem iterNames_eq_free : ∀ (e : Expr), sumAndSubscriptFree e = true →
-    ∀ x, x ∈ e.iterVars.map (·.name) ↔ x ∈ freeEventNames e
+/-- **what the code collects** (after `fix:` a54a0f5): the free event names and the names bound by an inner `Sum` — no
+subscript name -/
+theorem collected_names_iff : ∀ (e : Expr), noIvObject e = true →
+    ∀ x, x ∈ (e.iterVars.filter (fun (v : Var) => !v.isIv)).map (·.name) ↔ x ∈ freeEventNames e ∨ x ∈ boundRangeNames e
   | .prob pop c p, h, x => by
-    simp only [sumAndSubscriptFree, List.all_eq_true, List.isEmpty_iff] at h
-    simp only [Expr.iterVars, freeEventNames, List.mem_map, List.mem_flatMap, Var.iterVars, List.mem_cons]
-    constructor
-    · rintro ⟨w, ⟨v, hv, hw⟩, rfl⟩
-      rcases hw with rfl | ⟨i, hi, rfl⟩
-      · exact ⟨w, hv, rfl⟩
-      · rw [h v hv] at hi; cases hi
-    · rintro ⟨v, hv, rfl⟩
-      exact ⟨v, ⟨v, hv, Or.inl rfl⟩, rfl⟩
+    simp only [noIvObject] at h
+    simp only [Expr.iterVars, freeEventNames, boundRangeNames, List.not_mem_nil, or_false]
+    exact names_filter_iterVars (c ++ p) h x
   | .prod fs, h, x => by
-    simp only [sumAndSubscriptFree] at h
-    simp only [Expr.iterVars, freeEventNames]
-    exact iterNamesList_eq_free fs h x
-  | .sum _ _, h, _ => by simp [sumAndSubscriptFree] at h
+    simp only [noIvObject] at h
+    simp only [Expr.iterVars, freeEventNames, boundRangeNames]
+    exact collected_namesList_iff fs h x
+  | .sum e r, h, x => by
+    simp only [noIvObject, Bool.and_eq_true] at h
+    simp only [Expr.iterVars, freeEventNames, boundRangeNames, List.filter_append, List.map_append, List.mem_append,
+      List.mem_filter, Bool.not_eq_true', List.contains_eq_mem, decide_eq_false_iff_not]
+    rw [collected_names_iff e h.1 x, names_filter_plain r h.2 x]
+    by_cases hx : x ∈ r.map (·.name) <;> simp [hx]
   | .frac n d, h, x => by
-    simp only [sumAndSubscriptFree, Bool.and_eq_true] at h
-    simp only [Expr.iterVars, freeEventNames, List.map_append, List.mem_append]
-    rw [iterNames_eq_free n h.1 x, iterNames_eq_free d h.2 x]
-  | .q d c, _, x => by simp [Expr.iterVars, freeEventNames]
-  | .one, _, x => by simp [Expr.iterVars, freeEventNames]
-  | .zero, _, x => by simp [Expr.iterVars, freeEventNames]
-theorem iterNamesList_eq_free : ∀ (fs : List Expr), sumAndSubscriptFreeList fs = true →
-    ∀ x, x ∈ (Expr.iterVarsList fs).map (·.name) ↔ x ∈ freeEventNamesList fs
-  | [], _, x => by simp [Expr.iterVarsList, freeEventNamesList]
+    simp only [noIvObject, Bool.and_eq_true] at h
+    simp only [Expr.iterVars, freeEventNames, boundRangeNames, List.filter_append, List.map_append, List.mem_append]
+    rw [collected_names_iff n h.1 x, collected_names_iff d h.2 x]
+    tauto
+  | .q d c, h, x => by
+    simp only [noIvObject] at h
+    simp only [Expr.iterVars, freeEventNames, boundRangeNames, List.not_mem_nil, or_false]
+    exact names_filter_plain (c ++ d) h x
+  | .one, _, x => by simp [Expr.iterVars, freeEventNames, boundRangeNames]
+  | .zero, _, x => by simp [Expr.iterVars, freeEventNames, boundRangeNames]
+theorem collected_namesList_iff : ∀ (fs : List Expr), noIvObjectList fs = true →
+    ∀ x, x ∈ ((Expr.iterVarsList fs).filter (fun (v : Var) => !v.isIv)).map (·.name) ↔
+      x ∈ freeEventNamesList fs ∨ x ∈ boundRangeNamesList fs
+  | [], _, x => by simp [Expr.iterVarsList, freeEventNamesList, boundRangeNamesList]
   | e :: es, h, x => by
-    simp only [sumAndSubscriptFreeList, Bool.and_eq_true] at h
-    simp only [Expr.iterVarsList, freeEventNamesList, List.map_append, List.mem_append]
-    rw [iterNames_eq_free e h.1 x, iterNamesList_eq_free es h.2 x]
+    simp only [noIvObjectList, Bool.and_eq_true] at h
+    simp only [Expr.iterVarsList, freeEventNamesList, boundRangeNamesList, List.filter_append, List.map_append,
+      List.mem_append]
+    rw [collected_names_iff e h.1 x, collected_namesList_iff es h.2 x]
+    tauto
 end
 
-/-- **`Expression.conditional` meets the specification on expressions without `Sum` and without intervention subscripts**
-(products and fractions of observational leaves, any nesting): there the variables the code collects are exactly the free
-event variables, so `e.conditional(ranges)` denotes `e / Σ_{free(e) ∖ ranges} e`.  Together with
-`conditional_den_probability` (single leaves, subscripts allowed) this delimits finding F11 from below: the deviation needs
-a bound `Sum` range or a subscript outside a single `Probability`. -/
-theorem conditional_den_spec_observational (e c : Expr) (r : List Var) (hfree : sumAndSubscriptFree e = true)
-    (hnl : ∀ pop ch pa, e ≠ .prob pop ch pa) (h : e.conditional r = .ok c) (σ : Val)
-    (xs : List Name) (hxs : xs.Nodup) (hmem : ∀ x, x ∈ xs ↔ x ∈ freeEventNames e ∧ x ∉ r.map (·.name)) :
-    den env σ' c σ = den env σ' e σ / sumVars env.card xs (fun τ => den env σ' e τ) σ := by
-  apply conditional_den_spec_partial e c r h σ xs hxs hmem
-  intro x
-  have hcc : e.conditionalComplement r =
-      diff' (dedup' (e.iterVars.map Var.base)) (upgradeOrdering (r.map Var.base)) := by
-    unfold Expr.conditionalComplement
-    cases e with
-    | prob pop ch pa => exact absurd rfl (hnl pop ch pa)
-    | _ => rfl
-  rw [hcc, ← iterNames_eq_free e hfree x]
-  simp only [List.mem_map, mem_diff', mem_dedup', mem_upgradeOrdering]
+/-- the names `conditional` sums over: collected names outside `ranges` -/
+theorem mem_conditionalComplement_names (e : Expr) (r : List Var) (x : Name) :
+    x ∈ (e.conditionalComplement r).map (·.name) ↔
+      x ∈ (e.iterVars.filter (fun (v : Var) => !v.isIv)).map (·.name) ∧ x ∉ r.map (·.name) := by
+  simp only [Expr.conditionalComplement, List.mem_map, mem_diff', mem_dedup', mem_upgradeOrdering]
   constructor
   · rintro ⟨w, ⟨⟨v, hv, rfl⟩, hnr⟩, rfl⟩
     refine ⟨⟨v, hv, rfl⟩, ?_⟩
@@ -205,23 +211,131 @@ theorem conditional_den_spec_observational (e c : Expr) (r : List Var) (hfree : 
     rintro ⟨r0, hr0, hb⟩
     exact hnr ⟨r0, hr0, Var.base_eq_iff.mp hb⟩
 
-/-- non-vacuity: `(P(A|B) * P(B)) / P(C)` is Sum- and subscript-free, and `conditional` succeeds on it -/
-example : sumAndSubscriptFree (.frac (.prod [.prob none [Var.plain 0] [Var.plain 1], .prob none [Var.plain 1] []])
-      (.prob none [Var.plain 2] [])) = true ∧
-    ∃ c, (Expr.frac (.prod [.prob none [Var.plain 0] [Var.plain 1], .prob none [Var.plain 1] []])
-      (.prob none [Var.plain 2] [])).conditional [Var.plain 1] = .ok c := ⟨by decide, _, rfl⟩
+/-- **exactly what remains of F11**: the code normalises over the right set of variables if and only if every name in the
+range of an inner `Sum` is one of `ranges` or occurs free elsewhere in the expression -/
+theorem conditional_complement_exact_iff (e : Expr) (r : List Var) (hiv : noIvObject e = true) :
+    (∀ x, x ∈ (e.conditionalComplement r).map (·.name) ↔ x ∈ freeEventNames e ∧ x ∉ r.map (·.name)) ↔
+      ∀ x ∈ boundRangeNames e, x ∈ r.map (·.name) ∨ x ∈ freeEventNames e := by
+  constructor
+  · intro h x hx
+    by_cases hr : x ∈ r.map (·.name)
+    · exact Or.inl hr
+    · exact Or.inr ((h x).mp ((mem_conditionalComplement_names e r x).mpr
+        ⟨(collected_names_iff e hiv x).mpr (Or.inr hx), hr⟩)).1
+  · intro h x
+    rw [mem_conditionalComplement_names, collected_names_iff e hiv x]
+    constructor
+    · rintro ⟨hfb | hfb, hr⟩
+      · exact ⟨hfb, hr⟩
+      · rcases h x hfb with h1 | h1
+        · exact absurd h1 hr
+        · exact ⟨h1, hr⟩
+    · rintro ⟨hf, hr⟩
+      exact ⟨Or.inl hf, hr⟩
 
-/-- F11 exhibited on the model: for `Sum[A](P(C))` (A=0, C=2) the code also normalises over the bound `A` -/
+/-- **`Expression.conditional` / `Probability.conditional` meet the specification** on every expression (leaves, products,
+fractions, sums, any nesting, intervention subscripts anywhere) in which every name bound by an inner `Sum` is one of `ranges`
+or also occurs free: `e.conditional(ranges)` denotes `e / Σ_{free(e) ∖ ranges} e`.  By `conditional_complement_exact_iff`
+nothing more can be true of the code as it is: what remains excluded is exactly a `Sum` range that is neither conditioned on
+nor free elsewhere (the bound-range part of F11, pinned by `test_idc_star`). -/
+theorem conditional_den_spec_observational (e c : Expr) (r : List Var) (hiv : noIvObject e = true)
+    (hb : ∀ x ∈ boundRangeNames e, x ∈ r.map (·.name) ∨ x ∈ freeEventNames e)
+    (h : e.conditional r = .ok c) (σ : Val)
+    (xs : List Name) (hxs : xs.Nodup) (hmem : ∀ x, x ∈ xs ↔ x ∈ freeEventNames e ∧ x ∉ r.map (·.name)) :
+    den env σ' c σ = den env σ' e σ / sumVars env.card xs (fun τ => den env σ' e τ) σ :=
+  conditional_den_spec_partial e c r h σ xs hxs hmem ((conditional_complement_exact_iff e r hiv).mpr hb)
+
+/-- **`Probability.conditional` meets the specification**: for a leaf `P(C | Pa)` whose event variables are not
+`Intervention` objects, `p.conditional(ranges)` denotes `p / Σ_{(C ∪ Pa) ∖ ranges} p` (subscripts are not summed over) -/
+theorem conditional_den_probability {pop : Option Var} {ch pa : List Var} {c : Expr} (r : List Var)
+    (hiv : ∀ v ∈ ch ++ pa, v.isIv = false) (h : (Expr.prob pop ch pa).conditional r = .ok c) (σ : Val)
+    (xs : List Name) (hxs : xs.Nodup)
+    (hmem : ∀ x, x ∈ xs ↔ x ∈ (ch ++ pa).map (·.name) ∧ x ∉ r.map (·.name)) :
+    den env σ' c σ = den env σ' (.prob pop ch pa) σ / sumVars env.card xs (fun τ => den env σ' (.prob pop ch pa) τ) σ := by
+  apply conditional_den_spec_observational _ c r _ _ h σ xs hxs (by simpa [freeEventNames] using hmem)
+  · simp only [noIvObject, List.all_eq_true, Bool.not_eq_true']
+    exact hiv
+  · intro x hx; simp [boundRangeNames] at hx
+
+mutual
+/-- no `Sum` inside (subscripts allowed): products / fractions of interventional or observational leaves -/
+def sumFree : Expr → Bool
+  | .prod fs => sumFreeList fs
+  | .sum _ _ => false
+  | .frac n d => sumFree n && sumFree d
+  | _ => true
+def sumFreeList : List Expr → Bool
+  | [] => true
+  | e :: es => sumFree e && sumFreeList es
+end
+
+mutual
+theorem boundRangeNames_of_sumFree : ∀ (e : Expr), sumFree e = true → boundRangeNames e = []
+  | .prob _ _ _, _ => rfl
+  | .prod fs, h => by
+    simp only [sumFree] at h
+    simp only [boundRangeNames]
+    exact boundRangeNamesList_of_sumFree fs h
+  | .sum _ _, h => by simp [sumFree] at h
+  | .frac n d, h => by
+    simp only [sumFree, Bool.and_eq_true] at h
+    simp only [boundRangeNames, boundRangeNames_of_sumFree n h.1, boundRangeNames_of_sumFree d h.2, List.append_nil]
+  | .q _ _, _ => rfl
+  | .one, _ => rfl
+  | .zero, _ => rfl
+theorem boundRangeNamesList_of_sumFree : ∀ (fs : List Expr), sumFreeList fs = true → boundRangeNamesList fs = []
+  | [], _ => rfl
+  | e :: es, h => by
+    simp only [sumFreeList, Bool.and_eq_true] at h
+    simp only [boundRangeNamesList, boundRangeNames_of_sumFree e h.1, boundRangeNamesList_of_sumFree es h.2,
+      List.append_nil]
+end
+
+/-- corollary: on every `Sum`-free expression — interventional leaves `P[x](…)`, their products and fractions — `conditional`
+meets the specification (before `fix:` a54a0f5 this needed the absence of subscripts) -/
+theorem conditional_den_spec_sumfree (e c : Expr) (r : List Var) (hiv : noIvObject e = true) (hsf : sumFree e = true)
+    (h : e.conditional r = .ok c) (σ : Val)
+    (xs : List Name) (hxs : xs.Nodup) (hmem : ∀ x, x ∈ xs ↔ x ∈ freeEventNames e ∧ x ∉ r.map (·.name)) :
+    den env σ' c σ = den env σ' e σ / sumVars env.card xs (fun τ => den env σ' e τ) σ :=
+  conditional_den_spec_observational e c r hiv
+    (by intro x hx; rw [boundRangeNames_of_sumFree e hsf] at hx; cases hx) h σ xs hxs hmem
+
+/-- non-vacuity of `conditional_den_spec_sumfree`: `(P[X](A | B) * P(B)) / P(C)` has a subscript, no `Sum`, and `conditional`
+succeeds on it -/
+example : noIvObject (.frac (.prod [.prob none [{ name := 0, ivs := [⟨5, false⟩] }] [Var.plain 1], .prob none [Var.plain 1] []])
+      (.prob none [Var.plain 2] [])) = true ∧
+    sumFree (.frac (.prod [.prob none [{ name := 0, ivs := [⟨5, false⟩] }] [Var.plain 1], .prob none [Var.plain 1] []])
+      (.prob none [Var.plain 2] [])) = true ∧
+    ∃ c, (Expr.frac (.prod [.prob none [{ name := 0, ivs := [⟨5, false⟩] }] [Var.plain 1], .prob none [Var.plain 1] []])
+      (.prob none [Var.plain 2] [])).conditional [Var.plain 1] = .ok c := ⟨by decide, by decide, _, rfl⟩
+
+/-- non-vacuity of `conditional_den_spec_observational` with a `Sum` inside: `Sum[B](P(A, B)) * P(B)`, the bound `B` occurs
+free in the second factor -/
+example : noIvObject (.prod [.sum (.prob none [Var.plain 0, Var.plain 1] []) [Var.plain 1], .prob none [Var.plain 1] []]) = true ∧
+    (∀ x ∈ boundRangeNames (.prod [.sum (.prob none [Var.plain 0, Var.plain 1] []) [Var.plain 1], .prob none [Var.plain 1] []]),
+      x ∈ ([] : List Var).map (·.name) ∨
+      x ∈ freeEventNames (.prod [.sum (.prob none [Var.plain 0, Var.plain 1] []) [Var.plain 1], .prob none [Var.plain 1] []])) := by
+  refine ⟨by decide, ?_⟩
+  decide
+
+/-- what remains of F11 exhibited on the model: for `Sum[A](P(C))` (A=0, C=2) the code also normalises over the bound `A` -/
 theorem conditional_collects_bound_range :
     ((Expr.sum (.prob none [Var.plain 2] []) [Var.plain 0]).conditionalComplement []).map (·.name) = [2, 0] ∧
       freeEventNames (Expr.sum (.prob none [Var.plain 2] []) [Var.plain 0]) = [2] := by decide
 
-/-- ... and, outside `Probability`, over intervention subscripts: `P[A](C) * P(D)` (A=0, C=2, D=3) -/
-theorem conditional_collects_subscript :
+/-- the subscript part of F11 is gone (`fix:` a54a0f5): for `P[A](C) * P(D)` (A=0, C=2, D=3) the code normalises over `C, D`
+only — before the fix it collected `[2, 0, 3]` -/
+theorem conditional_skips_subscripts :
     ((Expr.prod [.prob none [{ name := 2, ivs := [⟨0, false⟩] }] [], .prob none [Var.plain 3] []]).conditionalComplement
-        []).map (·.name) = [2, 0, 3] ∧
+        []).map (·.name) = [2, 3] ∧
       freeEventNames (Expr.prod [.prob none [{ name := 2, ivs := [⟨0, false⟩] }] [], .prob none [Var.plain 3] []]) = [2, 3] := by
   decide
+
+/-- … in general: a name the code normalises over is a free event name or a name bound by an inner `Sum`, never a name that
+occurs in subscripts only -/
+theorem conditional_skips_subscripts_general (e : Expr) (r : List Var) (hiv : noIvObject e = true) (x : Name)
+    (hx : x ∈ (e.conditionalComplement r).map (·.name)) : x ∈ freeEventNames e ∨ x ∈ boundRangeNames e :=
+  (collected_names_iff e hiv x).mp ((mem_conditionalComplement_names e r x).mp hx).1
 
 /-- the consequence: a collected variable the expression does not depend on multiplies the normaliser by its cardinality
 (the factor `|dom X|` of finding F11) -/
